@@ -163,7 +163,7 @@ func (n *native) run(pkgPath, harness, valuesFile string) (*nativeRun, error) {
 			if r.panicMsg == "" {
 				r.panicMsg = "panic with an empty message (pterm Fatal printer)"
 			}
-		case strings.HasPrefix(ln, "panic:") && r.panicMsg == "":
+		case (strings.HasPrefix(ln, "panic:") || strings.HasPrefix(ln, "fatal error:")) && r.panicMsg == "":
 			r.panicMsg = ln
 		}
 	}
